@@ -6,7 +6,15 @@ compared with the extracted model coq/Mapping.v (theorems in coq/Prop_C04_mappin
 Independently of the model, on instances with few variables the implementation's constraints
 are evaluated on every assignment against the functional meaning (total / functional /
 injective / surjective / non-decreasing relation; for binary mappings the value spelled by
-the bits)."""
+the bits).
+
+Large corpus (notes/LARGE_STREAMS.md), run first: new_mapping(n, m) with m in 128/129/130/300, sparse mappings over
+bipartite graphs with a hub of degree 129/130 on either side whose edges were inserted in random order, binary
+mappings into 255/256/257/1025 values, all created after 255..1000 anonymous variables.  The ordered output is
+compared with the model; the functional meaning is evaluated on sampled assignments (total functions, near
+misses, monotone functions, all-false / all-true) since these instances have too many variables to enumerate."""
+import random
+
 from lib import cmd, Sym, is_error, import_impl, lit_true, pb_sat, assignments
 
 WHICH = ['complete', 'functional', 'surjective', 'injective', 'nondecreasing']
@@ -33,6 +41,96 @@ def mapping_cases(ctx):
         edges = sorted([u, v] for u in range(1, L + 1) for v in range(1, R + 1) if rng.random() < dens)
         out.append(dict(kind='sparse', L=L, R=R, edges=edges))
     return out
+
+
+BIG_OFFSETS = [255, 256, 257, 258, 300, 1000]
+
+
+def large_mapping_cases(rng, tier):
+    quick = tier == 'quick'
+    out = []
+    for (n, m) in [(2, 128), (2, 129), (2, 130), (1, 300)] + ([] if quick else [(3, 129), (2, 300), (129, 2), (257, 1), (17, 16), (3, 257)]):
+        out.append(dict(kind='unary', n=n, m=m, large=True))
+    for k in range(2 if quick else 8):
+        n = rng.choice([135, 150, 200, 300])
+        D = rng.choice([129, 130])
+        verts = list(range(1, n + 1))
+        low, high = rng.choice([1, 2, 3]), rng.choice([n - 2, n - 1, n])
+        hu, hv = (low, high) if k % 2 == 0 else (high, low)          # hubs at either end of the numbering, on either side
+        edges = {(hu, w) for w in rng.sample(verts, D)} | {(w, hv) for w in rng.sample(verts, D)}
+        target = len(edges) + rng.choice([20, 60])
+        while len(edges) < target:
+            edges.add((rng.choice(verts), rng.choice(verts)))
+        order = [list(e) for e in edges]
+        rng.shuffle(order)                  # the order in which the graph receives its edges
+        out.append(dict(kind='sparse', L=n, R=n, edges=order, large=True))
+    for (n, m) in [(2, 255), (2, 256), (2, 257), (3, 129), (3, 65)] + ([] if quick else [(17, 16), (17, 17), (1, 1025), (2, 1000), (5, 64), (5, 65)]):
+        out.append(dict(kind='binary', n=n, m=m, large=True))
+    return out
+
+
+def sampled_failing(rng, which, mc, f, cname, constraints, off, nvar, samples=8):
+    """large instances: the constraints against the functional meaning on sampled assignments"""
+    try:
+        return sampled_failing_(rng, which, mc, f, cname, constraints, off, nvar, samples)
+    except Exception as e:  # noqa  (the mapping object itself fails on a legal index)
+        return {'mapping-object-raises': repr(e)}
+
+
+def sampled_failing_(rng, which, mc, f, cname, constraints, off, nvar, samples=8):
+    if which == 'surjective' and mc['kind'] == 'binary':
+        return None
+    if len(constraints) > 60000:
+        samples = 3
+    ids = list(range(off + 1, nvar + 1))
+    cands = [[], list(ids)]
+    if mc['kind'] == 'binary':
+        n, m, k = mc['n'], mc['m'], f.bits()
+        vals = [[rng.randrange(2 ** k) for _ in range(n)], [rng.randrange(m) for _ in range(n)], sorted(rng.randrange(m) for _ in range(n)),
+                sorted((rng.randrange(m) for _ in range(n)), reverse=True), [rng.randrange(m)] * n, [m - 1] * n, [min(m, 2 ** k - 1)] * n,
+                [m - 1 - i for i in range(n)]]
+        for vs in vals:
+            cands.append([f(i, b) for i, v in enumerate(vs, start=1) for b in range(k) if (v >> b) & 1])
+    else:
+        dom = list(f.domain())
+        fun = {u: rng.choice(list(f.range(u))) for u in dom if len(f.range(u))}
+        base = [f(u, v) for u, v in fun.items()]
+        cands.append(base)
+        for _ in range(3):
+            x = rng.choice(ids) if ids else None
+            cands.append([y for y in base if y != x] + ([x] if x is not None and x not in base else []))
+        mono, last = [], 0
+        for u in dom:
+            r = [v for v in f.range(u) if v >= last]
+            if r:
+                v = rng.choice(r[:3])
+                mono.append(f(u, v))
+                last = v
+        cands.append(mono)
+        inj, used = [], set()
+        for u in dom:
+            r = [v for v in f.range(u) if v not in used]
+            if r:
+                v = rng.choice(r)
+                used.add(v)
+                inj.append(f(u, v))
+        cands.append(inj)
+    for true_ids in cands[:samples + 2]:
+        ts = set(true_ids)
+        a = [None] + [False] * off + [(i in ts) for i in ids]
+        try:
+            want = meaning(which, mc, f, a)
+        except Exception as e:  # noqa  (an identifier of the mapping outside the variables of the formula)
+            return {'mapping-variable-outside-the-formula': repr(e), 'variables': nvar}
+        if want is None:
+            return None
+        try:
+            got = holds(cname, constraints, a)
+        except Exception as e:  # noqa
+            return {'malformed-output': repr(e)}
+        if got != want:
+            return {'assignment': sorted(ts), 'constraints_hold': got, 'meaning_holds': want}
+    return None
 
 
 def mapping_sx(mc):
@@ -124,12 +222,25 @@ def run_mappings(ctx):
     from cnfgen.formula.cnf import CNF
     from cnfgen.formula.opb import OPB
     rng = ctx.rng
+    lrng = random.Random('%d-c04-mapping-large' % ctx.seed)      # the large corpus has its own generator derived from the seed
     jobs = []
-    for mc in mapping_cases(ctx):
-        ctx.tally('mapping kind', mc['kind'])
-        for which in WHICH:
-            for cname, C in (('CNF', CNF), ('OPB', OPB)):
-                off = rng.choice([0, 0, 3, rng.randint(0, 9)])
+    big = large_mapping_cases(lrng, ctx.tier)
+    for ci, mc in enumerate(big + mapping_cases(ctx)):
+        ctx.tally('mapping kind' if not mc.get('large') else 'large: mapping kind', mc['kind'])
+        for wi, which in enumerate(WHICH):
+            for ki, (cname, C) in enumerate((('CNF', CNF), ('OPB', OPB))):
+                if mc.get('large'):
+                    if ctx.tier == 'quick' and (ci + wi + ki) % 2:
+                        continue                                 # quick tier: each large mapping on alternating classes
+                    if mc['kind'] == 'binary' and which == 'nondecreasing' and mc['m'] > (70 if ctx.tier == 'quick' else 260):
+                        continue                                 # one clause per pair of values: the model needs seconds
+                    off = lrng.choice(BIG_OFFSETS)
+                    ctx.tally('large: anonymous variables before the mapping', off)
+                    ctx.tally('large: mapping', '%s n=%s m=%s' % (mc['kind'], mc.get('n', mc.get('L')), mc.get('m', mc.get('R'))))
+                    if 'edges' in mc:
+                        ctx.tally('large: edges inserted in sorted order', mc['edges'] == sorted(mc['edges']))
+                else:
+                    off = rng.choice([0, 0, 3, rng.randint(0, 9)])
                 descr = dict(cls=cname, mapping=mc, constraint=which, anonymous_before=off)
                 F = C()
                 F.update_variable_number(off)
@@ -153,7 +264,7 @@ def run_mappings(ctx):
     replies = ctx.model.batch([j[-1] for j in jobs])
     for (descr, mc, which, cname, off, f, nvar, got, raised, _), rep in zip(jobs, replies):
         key = (cname, str(mc), which, off)
-        ctx.count('mapping-' + cname, key, nvar > off, sample=descr)
+        ctx.count(('mapping-large-' if mc.get('large') else 'mapping-') + cname, key, nvar > off, sample=descr)
         site = 'force_%s_mapping-%s' % (which, mc['kind'])
         if is_error(rep):
             ctx.violation('correspondence', 'model error', dict(input=descr, model=rep), False, site='model-error', cls=site)
@@ -165,6 +276,8 @@ def run_mappings(ctx):
         if raised is None or (mc['kind'] == 'binary' and which == 'surjective'):
             if not (mc['kind'] == 'binary' and which == 'surjective'):
                 bad = search_failing(which, mc, f, cname, got, off, nvar)
+                if bad is None and mc.get('large'):
+                    bad = sampled_failing(lrng, which, mc, f, cname, got, off, nvar)
         if raised not in (None, 'ValueError'):
             ctx.disagreements_checked += 1
             ctx.violation('counterexample', 'force_%s_mapping raised %s' % (which, raised), dict(input=descr, implementation=got), True,
